@@ -334,6 +334,17 @@ def prepend_rules(ctx, prog):
         if args[1] != ARGV0 or ln != P:
             problems.append("what is appended is not the whole program path as given (source %s, %s bytes instead of the path's %d) (%s)"
                             % (show(args[1])[:50], show(args[2]), P, site_of(fn, n)))
+        elif isinstance(off, int):
+            s2 = st.copy()
+            s2.mon["composed_upto"] = (tok, off + P)       # directory, separator and program path are in place up to here
+            return [(s2, args[0])]
+        return [(st, args[0])]
+
+    def m_memmove(I, fn, n, args, st):
+        size, off, tok = size_of(st, args[0])
+        done = st.mon.get("composed_upto")
+        if done and tok == done[0]:
+            problems.append("the composed path is rewritten in place after the program path was appended (%s)" % site_of(fn, n))
         return [(st, args[0])]
 
     def store_hook(I, fn, node, cell, val, st):
@@ -344,9 +355,13 @@ def prepend_rules(ctx, prog):
                 unknown.append("store to element %s of a block: index not evaluable (%s)" % (cell[2], site_of(fn, node)))
             elif not (0 <= cell[2] < size):
                 problems.append("store to byte %d of a block of %d bytes (%s)" % (cell[2], size, site_of(fn, node)))
+            done = st.mon.get("composed_upto")
+            if done and cell[1][1] == done[0] and (not isinstance(cell[2], int) or cell[2] < done[1]):
+                # what exec gets is <cwd>/<argv[0]> exactly as composed: only the terminator is still to be written, behind it
+                problems.append("byte %s of the composed path is overwritten after the program path was appended (%s)" % (cell[2], site_of(fn, node)))
         return None
     I = new_interp(prog, extra_models={"calloc": m_alloc, "malloc": m_alloc, "realloc": m_alloc, "getcwd": m_getcwd, "strlen": m_strlen,
-                                       "memcpy": m_memcpy})
+                                       "memcpy": m_memcpy, "memmove": m_memmove})
     I.widen = False
     I.hooks_store.append(store_hook)
     ks = {P, ERANGE, 13, 1, 2}
@@ -360,7 +375,16 @@ def prepend_rules(ctx, prog):
     st = State()
     for p_ in F.params:
         st.mem[("v", F.gdid(p_["did"]))] = ARGV0        # a pointer to the first byte of the path: stepping it forward is visible
-    res = I.run(F, [st])
+    try:
+        res = I.run(F, [st])
+    except AnalysisBroken as e:
+        if not problems:
+            raise
+        # what was established before the run ran out of precision stands
+        ctx.ob("C03.P4b", "path_prepend_cwd: buffer sizes and contents", "the path handed to exec is the working directory, a separator and "
+               "the program path as given, each written once inside the block", False,
+               {"problems": sorted(set(problems))[:5], "analysis_stopped_early": str(e)[:120]}, nontrivial=True)
+        return
     ctx.stats("E-ABS", I.stats)
     oks = [s_ for s_, rv in res.exits if rv != fs("NULL")]
     if unknown and not problems:
